@@ -112,8 +112,10 @@ class LogWorld:
                 ab[2] = a_ar
             segs_raw.append(seg)
             segs_abs.append(ab)
-        raw = {'pc': nseg, 's': rnd.randrange(0, 4)}
-        if nseg or rnd.random() < 0.5:
+        # the placeholder count is NOT the segment count: "text %d more text" has one placeholder and two segments
+        pc = rnd.choice([nseg, nseg, max(nseg - 1, 0), max(nseg - 2, 0), nseg + 1, 0]) if nseg else rnd.choice([0, 0, 1])
+        raw = {'pc': pc, 's': rnd.randrange(0, 4)}
+        if nseg or pc or rnd.random() < 0.5:
             raw['seg'] = segs_raw
         return raw, [raw['pc'], raw['s'], segs_abs]
 
@@ -281,7 +283,7 @@ def run(ctx):
         raws[oid] = raw
 
     for i, keys in enumerate(subsets):
-        raw, ab = lw.record(keys, dm_shape=[0, 1, 3, 2][i % 4])
+        raw, ab = lw.record(keys, dm_shape=[0, 1, 3, 2, 4][i % 5])
         observe('s%d_direct' % i, raw, ab, 'direct')
         if i % (4 if ctx.quick else 2) == 0:
             observe('s%d_file' % i, raw, ab, 'file')
